@@ -42,6 +42,23 @@ type havocEvent struct {
 	// loopFrame: the event is a loop-head havoc in a function with a declared frame; the new
 	// symbol of a key satisfies the frame invariant (asserted at loop entry and at back edges)
 	loopFrame bool
+	// keep: rows of memory this function allocated and has not given away when the event (a call) happened;
+	// whatever the callee does, it cannot reach them
+	keep []keepRef
+}
+
+type keepRef struct {
+	ref      Term
+	prefixes []string
+}
+
+func (k keepRef) covers(key string) bool {
+	for _, p := range k.prefixes {
+		if key == p || strings.HasPrefix(key, p) {
+			return true
+		}
+	}
+	return false
 }
 
 func (u *Unit) clk0() Term { return u.d.Const("clk0", SInt) }
@@ -130,6 +147,19 @@ func (u *Unit) heapBaseAt(st *State, key string, sort Sort, n int) Term {
 			nw := u.d.Const(fmt.Sprintf("H%d_%s", h.id, key), sort)
 			if h.loopFrame && u.old != nil {
 				u.frameAssume(st, key, nw)
+			}
+			if len(h.keep) > 0 && sort.isArray() && sort.arrIdx() == SInt {
+				var prev Term
+				havePrev := false
+				for _, kr := range h.keep {
+					if kr.covers(key) {
+						if !havePrev {
+							prev = u.heapBaseAt(st, key, sort, i)
+							havePrev = true
+						}
+						st.assume(Eq(Select(nw, kr.ref), Select(prev, kr.ref)))
+					}
+				}
 			}
 			return nw
 		}
@@ -663,6 +693,10 @@ func (u *Unit) havocHeap3(st *State, pred, partial func(key string) bool, clock 
 			return !strings.HasPrefix(key, "$") && !strings.HasPrefix(key, "G:") && !p(key) && partial(key)
 		}
 	}
+	var keep []keepRef
+	if !loopFrame && partial == nil {
+		keep = u.localKeep(st)
+	}
 	for _, k := range sortedKeys(st.heap) {
 		t := st.heap[k]
 		if p(k) {
@@ -671,13 +705,20 @@ func (u *Unit) havocHeap3(st *State, pred, partial func(key string) bool, clock 
 			if loopFrame && u.old != nil {
 				u.frameAssume(st, k, nw)
 			}
+			if t.Sort.isArray() && t.Sort.arrIdx() == SInt {
+				for _, kr := range keep {
+					if kr.covers(k) {
+						st.assume(Eq(Select(nw, kr.ref), Select(t, kr.ref)))
+					}
+				}
+			}
 		} else if pp != nil && pp(k) && t.Sort.isArray() && t.Sort.arrIdx() == SInt {
 			nw := u.d.Const(fmt.Sprintf("H%d_%s", id, k), t.Sort)
 			st.assume(frameFact(nw, t, clock))
 			st.heap[k] = nw
 		}
 	}
-	st.havocs = append(st.havocs, havocEvent{id: id, pred: p, partial: pp, clock: clock, loopFrame: loopFrame})
+	st.havocs = append(st.havocs, havocEvent{id: id, pred: p, partial: pp, clock: clock, loopFrame: loopFrame, keep: keep})
 }
 
 // havocGhost forgets one ghost variable or ghost field entirely.
